@@ -379,6 +379,10 @@ func (i *Interpreter) eval(expr ast.Expr, env *environment.Environment, isRepl b
 		return value, &ControlFlowSignal{Type: ControlFlowNone, LineNumber: 0}
 
 	case *ast.Literal:
+		if runes, ok := e.Value.([]rune); ok {
+			// string literals behave like every other string value
+			return string(runes), &ControlFlowSignal{Type: ControlFlowNone, LineNumber: 0}
+		}
 		return e.Value, &ControlFlowSignal{Type: ControlFlowNone, LineNumber: 0}
 
 	case *ast.Grouping:
@@ -712,16 +716,17 @@ func handleAddition(left, right interface{}, operator token.Token) interface{} {
 			utils.RuntimeError(operator, "Left operand must be a number.")
 			return nil
 		}
-		rightNum, err := toNumber(right)
-		if err == nil {
-			return leftNum + rightNum
-		}
+		// number + string concatenates, whatever the string looks like
 		rightStr, ok := right.(string)
 		if ok {
 			return fmt.Sprintf("%v", leftNum) + rightStr
 		}
 		if rightStr, ok := right.([]rune); ok {
 			return fmt.Sprintf("%v", leftNum) + string(rightStr)
+		}
+		rightNum, err := toNumber(right)
+		if err == nil {
+			return leftNum + rightNum
 		}
 	case string:
 		rightStr, err := stringifyOperand(right)
